@@ -119,3 +119,57 @@ Proof.
 Qed.
 
 
+
+(* ---- axis codes with ANY label table of three pairs with six pairwise distinct codes *)
+Lemma nodupb_cons x l : nodupb (x :: l) = true -> (forall y, In y l -> x <> y) /\ nodupb l = true.
+Proof.
+  cbn [nodupb]. intros H. apply andb_true_iff in H. destruct H as [H1 H2]. split; [|assumption].
+  intros y Hy ->. apply negb_true_iff in H1.
+  assert (existsb (Z.eqb y) l = true); [|congruence].
+  apply existsb_exists. exists y. split; [assumption|apply Z.eqb_refl].
+Qed.
+
+Section Labels.
+Variables a0 b0 a1 b1 a2 b2 : Z.
+Hypothesis D : nodupb [a0; b0; a1; b1; a2; b2] = true.
+Let lb : labels := [(a0, b0); (a1, b1); (a2, b2)].
+
+Lemma lab_neq : a0 <> b0 /\ a0 <> a1 /\ a0 <> b1 /\ a0 <> a2 /\ a0 <> b2 /\ b0 <> a1 /\ b0 <> b1 /\ b0 <> a2
+  /\ b0 <> b2 /\ a1 <> b1 /\ a1 <> a2 /\ a1 <> b2 /\ b1 <> a2 /\ b1 <> b2 /\ a2 <> b2.
+Proof.
+  destruct (nodupb_cons _ _ D) as [H0 D1]. destruct (nodupb_cons _ _ D1) as [H1 D2].
+  destruct (nodupb_cons _ _ D2) as [H2 D3]. destruct (nodupb_cons _ _ D3) as [H3 D4].
+  destruct (nodupb_cons _ _ D4) as [H4 _].
+  repeat split; first [apply H0|apply H1|apply H2|apply H3|apply H4]; cbn; tauto.
+Qed.
+
+Ltac neq_solve := first [assumption | apply not_eq_sym; assumption].
+Ltac eqbs := destruct lab_neq as (?&?&?&?&?&?&?&?&?&?&?&?&?&?&?); unfold lb; cbn [find_label existsb];
+  repeat match goal with |- context [?x =? ?y] =>
+    first [ rewrite (Z.eqb_refl x) | replace (x =? y) with false by (symmetry; apply Z.eqb_neq; neq_solve) ] end;
+  reflexivity.
+Lemma fl_a0 : find_label a0 lb 0 = Some (0, -1). Proof. eqbs. Qed.
+Lemma fl_b0 : find_label b0 lb 0 = Some (0, 1). Proof. eqbs. Qed.
+Lemma fl_a1 : find_label a1 lb 0 = Some (1, -1). Proof. eqbs. Qed.
+Lemma fl_b1 : find_label b1 lb 0 = Some (1, 1). Proof. eqbs. Qed.
+Lemma fl_a2 : find_label a2 lb 0 = Some (2, -1). Proof. eqbs. Qed.
+Lemma fl_b2 : find_label b2 lb 0 = Some (2, 1). Proof. eqbs. Qed.
+Lemma ex_in x : In x [a0; b0; a1; b1; a2; b2] -> existsb (Z.eqb x) [a0; b0; a1; b1; a2; b2] = true.
+Proof. intros H. apply existsb_exists. exists x. split; [assumption|apply Z.eqb_refl]. Qed.
+
+Lemma all48_codes_labels : forall o, In o all48 ->
+  exists c0 c1 c2,
+    ornt2axcodes lb (map Some o) = Ok5 [Some c0; Some c1; Some c2]
+    /\ axcodes2ornt lb [Some c0; Some c1; Some c2] = Ok5 (map Some o)
+    /\ c0 <> c1 /\ c0 <> c2 /\ c1 <> c2.
+Proof.
+  intros o Ho. destruct lab_neq as (?&?&?&?&?&?&?&?&?&?&?&?&?&?&?). vm_compute in Ho.
+  repeat (destruct Ho as [<-|Ho];
+    [do 3 eexists; split; [vm_compute; reflexivity|]; split;
+     [unfold axcodes2ornt, lb; cbn [flat_map fst snd app]; rewrite D; cbn [negb forallb];
+      rewrite !ex_in by (cbn; tauto); cbn [andb negb map]; fold lb;
+      rewrite ?fl_a0, ?fl_b0, ?fl_a1, ?fl_b1, ?fl_a2, ?fl_b2; reflexivity
+     |repeat split; neq_solve]|]).
+  contradiction.
+Qed.
+End Labels.
